@@ -7,6 +7,8 @@ switches them on at run time:
   runtime: `select` poll order becomes a pure function of a key the simulator
            sets (runtime.VerifSetSelectKey); key 0 = stock behaviour.
            runtime.VerifGoid() returns the current goroutine id.
+           runtime.VerifSetSelectHook installs a function called at the start
+           of every multi-case select of a synctest-bubble goroutine.
   os:      OpenFile, (*File).Write/WriteAt/ReadFrom/Sync/Close/Truncate and
            Remove consult os.VerifHook (nil = stock behaviour).
 
@@ -43,6 +45,23 @@ func VerifSetSelectKey(k uint64) { verifSelectKey.Store(k) }
 
 // VerifGoid returns the id of the calling goroutine.
 func VerifGoid() uint64 { return getg().goid }
+
+var verifSelectHook func()
+
+// VerifSetSelectHook installs f (nil: none). f is called at the start of
+// every select statement with two or more channel cases executed by a
+// goroutine of a synctest bubble, before any case is looked at: the
+// simulator parks the goroutine there, so that which cases are ready is
+// decided while nothing else runs, not by a real-time race.
+func VerifSetSelectHook(f func()) { verifSelectHook = f }
+
+func verifSelectGate(ncases int) {
+	if h := verifSelectHook; h != nil && ncases > 1 {
+		if gp := getg(); gp.bubble != nil && gp.m.curg == gp {
+			h()
+		}
+	}
+}
 
 //go:nosplit
 func verifSelectOrder(n uint32) uint32 {
@@ -246,6 +265,8 @@ def main():
 
     emit("runtime/select.go", patch(rd("runtime/select.go"), [
         ("j := cheaprandn(uint32(norder + 1))", "j := verifSelectOrder(uint32(norder + 1))"),
+        ("func selectgo(cas0 *scase, order0 *uint16, pc0 *uintptr, nsends, nrecvs int, block bool) (int, bool) {\n\tgp := getg()\n",
+         "func selectgo(cas0 *scase, order0 *uint16, pc0 *uintptr, nsends, nrecvs int, block bool) (int, bool) {\n\tverifSelectGate(nsends + nrecvs)\n\tgp := getg()\n"),
     ], "runtime/select.go"))
     emit("runtime/verif_select.go", RUNTIME_NEW)
 
